@@ -1,17 +1,18 @@
-SPECIFICATION TSpec
+SPECIFICATION Spec
 CONSTANTS
-  Threads = {1, 2, 3, 4}
-  Filters = {1, 2, 3, 4}
+  Threads = {1, 2}
+  Filters = {1, 2, 3}
   K = 2
   Atomic = TRUE
-  PrivateConsts = TRUE
-  MaxCalls = 99
-  Budget = 8
-VIEW TView
+  PrivateConsts = FALSE
+  MaxCalls = 4
+CONSTRAINT Bound
 INVARIANT NoCrossTalk
 INVARIANT GetNeverFails
 INVARIANT NamesUnique
 INVARIANT CachedWorks
 INVARIANT LruBound
+INVARIANT OneEntryPerFilter
 INVARIANT Accounting
+INVARIANT TypeOK
 CHECK_DEADLOCK FALSE
